@@ -26,6 +26,17 @@ def jsonable(x):
     return x
 
 
+def readable(x):
+    """Like jsonable, for human readers (evidence samples): tuples become lists, bytes hex strings."""
+    if isinstance(x, (bytes, bytearray)):
+        return "hex:" + bytes(x).hex()
+    if isinstance(x, (tuple, list)):
+        return [readable(y) for y in x]
+    if isinstance(x, dict):
+        return {str(k): readable(v) for k, v in x.items()}
+    return x
+
+
 def unjson(x):
     if isinstance(x, dict):
         if "__b" in x and len(x) == 1:
